@@ -243,6 +243,20 @@ fault("DataFrame.write_column", "unknown-column", "df")(lambda c: c.df.write_col
 fault("DataFrame.write_column", "wrong-length", "df")(lambda c: c.df.write_column([1] * (len(c.df) + 1), name=c.df.column_names[0]))
 fault("DataFrame.write_cell", "row-out-of-range", "df")(lambda c: c.df.write_cell(1, position=(99, 0)))
 fault("DataFrame.write_cell", "unknown-column", "df")(lambda c: c.df.write_cell(1, col_name="nope", row_idx=0))
+# multi-row / multi-part calls whose LATER part is invalid: nothing of the earlier part may stay behind
+GOODROW = (7, "g", 7.5)
+fault("DataFrame.write_rows", "valid-row-then-row-out-of-range", "df")(lambda c: c.df.write_rows([GOODROW, GOODROW], [0, 99]))
+fault("DataFrame.write_rows", "valid-row-then-short-row", "df")(lambda c: c.df.write_rows([GOODROW, (1,)], [0, 1]))
+fault("DataFrame.write_rows", "valid-row-then-ill-typed-row", "df")(lambda c: c.df.write_rows([GOODROW, ("x", "y", "z")], [0, 1]))
+fault("DataFrame.write_rows", "more-rows-than-indices", "df")(lambda c: c.df.write_rows([GOODROW, GOODROW], [0]))
+fault("DataFrame.append_rows", "valid-row-then-short-row", "df")(lambda c: c.df.append_rows([GOODROW, (1,)]))
+fault("DataFrame.append_rows", "valid-row-then-ill-typed-row", "df")(lambda c: c.df.append_rows([GOODROW, ("x", "y", "z")]))
+fault("DataFrame.write_column", "single-entry-column", "df")(lambda c: c.df.write_column([9], name=c.df.column_names[0]))
+fault("DataFrame.write_column", "single-entry-column-by-index", "df")(lambda c: c.df.write_column([9], index=0))
+fault("DataFrame.write_column", "empty-column", "df")(lambda c: c.df.write_column([], name=c.df.column_names[0]))
+fault("DataFrame.write_column", "column-index-out-of-range", "df")(lambda c: c.df.write_column([1] * len(c.df), index=99))
+fault("DataFrame.write_cell", "column-out-of-range", "df")(lambda c: c.df.write_cell(1, position=(0, 99)))
+fault("DataFrame.append_column", "ill-typed-with-declared-type", "df")(lambda c: c.df.append_column(["x"] * len(c.df), "newcol", datatype=np.int64))
 
 
 def state_list(tier):
